@@ -283,34 +283,38 @@ Proof.
   destruct sv; unfold upd_of, euler_upd, heun_spec_upd; now rewrite !lin_rhs_shift.
 Qed.
 
-(* what `run` computes on every backend is explicit Euler / Heun on the model — outside the two Heun findings *)
-Theorem run_impl_eq_spec b sv inplace s dt steps ss y0 : (1 <= ss)%nat ->
-  heun_alias_free b sv inplace = true -> heun_time_free b sv s = true ->
-  run_impl b sv inplace s dt steps ss y0 = run_spec sv s dt steps ss y0.
+(* what `run` computes on every backend is explicit Euler / Heun on the model — outside the Heun finding D16 *)
+Theorem run_impl_eq_spec b sv s dt steps ss y0 : (1 <= ss)%nat -> heun_time_free b sv s = true ->
+  run_impl b sv s dt steps ss y0 = run_spec sv s dt steps ss y0.
 Proof.
-  intros Hs Ga Gt. unfold run_spec. fold (upd_of sv (lin_rhs 0 s) dt).
+  intros Hs Gt. unfold run_spec. fold (upd_of sv (lin_rhs 0 s) dt).
   rewrite <- (spec_rows_shift (upd_of sv (lin_rhs (idx_base b) s) dt) _ (idx_base b)) by (intros; apply upd_of_shift).
-  destruct b, sv; unfold run_impl; cbn [heun_alias_free heun_time_free negb] in *;
-    try (rewrite base_solve_spec by exact Hs); try rewrite jax_solve_spec; try reflexivity;
-    try (apply negb_true_iff in Ga; subst inplace; reflexivity).
+  destruct b, sv; unfold run_impl; cbn [heun_time_free] in *;
+    try (rewrite base_solve_spec by exact Hs); try rewrite jax_solve_spec; try reflexivity.
   (* jax heun *)
   unfold spec_rows. apply map_ext. intros k. apply iter_from_ext. intros t y.
   apply heun_jax_autonomous. now apply lin_rhs_autonomous.
 Qed.
+
+(* hence any two backends agree with each other *)
+Corollary run_backends_agree b1 b2 sv s dt steps ss y0 : (1 <= ss)%nat ->
+  heun_time_free b1 sv s = true -> heun_time_free b2 sv s = true ->
+  run_impl b1 sv s dt steps ss y0 = run_impl b2 sv s dt steps ss y0.
+Proof. intros Hs G1 G2. now rewrite !run_impl_eq_spec. Qed.
 
 (* ---------- refutations ---------- *)
 (* x' = u(t), u_k = (k+1)^2, dt = 1, two steps: jax integrates (u_k + u_{k+1})/2, the base loop u_k *)
 Definition witness_time : linsys :=
   {| mat := [[Q2Qc 0]]; inw := [Q2Qc 1]; usamp := [Q2Qc 1; Q2Qc 4; Q2Qc 9; Q2Qc 16] |}.
 Lemma heun_corrector_time_differs :
-  run_impl BJax Heun true witness_time 1 2 1 [Q2Qc 0] <> run_spec Heun witness_time 1 2 1 [Q2Qc 0] /\
-  run_impl BJax Heun true witness_time 1 2 1 [Q2Qc 0] <> run_impl BDefault Heun false witness_time 1 2 1 [Q2Qc 0].
-Proof. split; vm_compute; intro H; discriminate H. Qed.
+  heun_time_free BJax Heun witness_time = false /\
+  run_impl BJax Heun witness_time 1 2 1 [Q2Qc 0] <> run_spec Heun witness_time 1 2 1 [Q2Qc 0] /\
+  run_impl BJax Heun witness_time 1 2 1 [Q2Qc 0] <> run_impl BDefault Heun witness_time 1 2 1 [Q2Qc 0].
+Proof. split; [reflexivity|]. split; vm_compute; intro H; discriminate H. Qed.
 
-(* x' = x, dt = 1, two steps, in-place buffer: the loop computes y + dt*f(y + dt*f(y)) *)
+(* the loop before fix_D36: x' = x, dt = 1, two steps, in-place buffer: y + dt*f(y + dt*f(y)) instead of Heun *)
 Definition witness_alias : linsys := {| mat := [[Q2Qc 1]]; inw := [Q2Qc 0]; usamp := [] |}.
 Lemma heun_alias_differs :
   time_free witness_alias = true /\
-  run_impl BDefault Heun true witness_alias 1 2 1 [Q2Qc 1] <> run_spec Heun witness_alias 1 2 1 [Q2Qc 1] /\
-  run_impl BDefault Heun true witness_alias 1 2 1 [Q2Qc 1] <> run_impl BJax Heun true witness_alias 1 2 1 [Q2Qc 1].
-Proof. split; [reflexivity|]. split; vm_compute; intro H; discriminate H. Qed.
+  run_impl_preD36 witness_alias 1 2 1 [Q2Qc 1] <> run_spec Heun witness_alias 1 2 1 [Q2Qc 1].
+Proof. split; [reflexivity|]. vm_compute; intro H; discriminate H. Qed.
